@@ -504,7 +504,17 @@ def generate_richardson_integrator(basis_integrator, richardson_iter=2):
             self.solver_dict = dict(safety_factor=0.5 if self.basis_integrators[0].is_implicit else 0.9, atol=self.atol, rtol=self.rtol, order=self.basis_integrators[0].order + richardson_iter // 2)
 
         def dense_output(self):
-            return self.__interpolant_times, self.__interpolants
+            # one cubic Hermite piece per step, through the recorded (extrapolated) end states: the pieces of the sub-steps belong
+            # to the un-extrapolated solutions and do not join at the recorded states
+            return (self.initial_time + self.dTime,
+                    utilities.interpolation.CubicHermiteInterp(
+                        self.initial_time,
+                        self.initial_time + self.dTime,
+                        self.initial_state,
+                        self.initial_state + self.dState,
+                        self.initial_rhs,
+                        self.final_rhs
+                    ))
 
         def check_converged(self, initial_state, diff, prev_error):
             err_estimate = D.ar_numpy.max(D.ar_numpy.abs(diff))
@@ -585,6 +595,10 @@ def generate_richardson_integrator(basis_integrator, richardson_iter=2):
                                                            next_timestep)
             else:
                 timestep = next_timestep
+                self.initial_time = D.ar_numpy.copy(initial_time)
+                self.initial_state = D.ar_numpy.copy(initial_state)
+                self.initial_rhs = rhs(initial_time, initial_state, **constants)
+                self.final_rhs = rhs(initial_time + self.dTime, initial_state + self.dState, **constants)
 
             return timestep, (self.dTime, self.dState)
 
